@@ -108,6 +108,22 @@ def cases(draw):
               "impls": [{"attrs": [], "methods": [{"name": "dv_sum", "attrs": [], "lifetimes": [], "self": ["val"], "params": [], "ret": ["prim", "f64"]}]}]}
     else:
         it = {"kind": "enum", "name": uname, "attrs": [], "variants": [["DvA", None, []], ["DvB", 5, []]], "impls": []}
+    # the added type may itself mention existing types of its module (outgoing references only: still nothing refers to it)
+    if ukind in ("opaque", "struct") and draw(st.booleans()):
+        cands = []
+        for other in ins["modules"][mi]["items"]:
+            if other.get("lifetimes") or other.get("out"):
+                continue
+            if other["kind"] == "enum":
+                cands.append(["enum", other["name"]])
+            elif other["kind"] == "struct" and other.get("fields"):
+                cands.append(["struct", other["name"], []])
+            elif other["kind"] == "opaque":
+                cands.append(["ref", None, False, other["name"], []])
+        if cands:
+            picked = draw(st.lists(st.sampled_from(cands), min_size=1, max_size=2))
+            it["impls"][0]["methods"].append({"name": "dv_uses", "attrs": [], "lifetimes": [], "self": None,
+                                              "params": [["dv_x%d" % i, t, []] for i, t in enumerate(picked)], "ret": ["prim", "u8"]})
     pos = draw(st.integers(0, len(ins["modules"][mi]["items"])))
     ins["modules"][mi]["items"].insert(pos, it)
     for mod in ins["modules"]:
